@@ -145,6 +145,12 @@ bool index_read(zckCtx *zck, char *data, size_t size, size_t max_length) {
                             count);
             return false;
         }
+        /* Nothing decompresses from zero stored bytes to a non-empty chunk */
+        if(new->comp_length == 0 && chunk_length != 0) {
+            set_fatal_error(zck, "Chunk %i has no stored data, but a "
+                            "non-zero uncompressed size", count);
+            return false;
+        }
         /* Without compression a chunk is stored as it is, so the two sizes
          * have to agree; the reader hands out the stored bytes */
         if(zck->comp.type == ZCK_COMP_NONE && chunk_length != new->comp_length) {
